@@ -1246,10 +1246,20 @@ def single_defs(block: tuple) -> dict:
     return {v: e for v, e in rhs.items() if count[v] == 1 and v not in banned}
 
 
+class _Deref(Sigma):
+    """substitution that leaves the targets of assignments alone"""
+    def _ap(self, s):
+        if isinstance(s, tuple) and len(s) == 3 and s[0] == "set" and s[1] in self.raw_subst:
+            return ("set", s[1], super()._ap(s[2]))
+        if isinstance(s, tuple) and len(s) == 4 and s[0] == "aug" and s[2] in self.raw_subst:
+            return ("aug", s[1], s[2], super()._ap(s[3]))
+        return super()._ap(s)
+
+
 def deref(s: S, defs: dict, depth: int = 4) -> S:
-    """substitute single-definition locals by their definitions (a few levels deep)"""
+    """substitute single-definition locals by their definitions (a few levels deep); assignment targets are kept"""
     for _ in range(depth):
-        s2 = Sigma(raw_subst=defs).apply(s)
+        s2 = _Deref(raw_subst=defs).apply(s)
         if s2 == s:
             break
         s = s2
